@@ -100,7 +100,9 @@ Take(s, b, n) ==
 
 KeepAlive(sl, hs, fr) ==
     LET conn == ToLower(Combined(hs, <<99, 111, 110, 110, 101, 99, 116, 105, 111, 110>>)) IN  \* "connection"
-    IF sl[3][8] = 49 THEN conn # <<99, 108, 111, 115, 101>>                                  \* 1.1: not "close"
+    IF sl[3][8] = 49                                                                          \* 1.1: no "close" option
+    THEN LET opts == SplitOn(conn, Comma) IN
+         \A i \in 1..Len(opts) : Strip(opts[i], OWS) # <<99, 108, 111, 115, 101>>
     ELSE /\ (fr[1] # "none" \/ sl[1] \in {<<71, 69, 84>>, <<72, 69, 65, 68>>})               \* GET, HEAD
          /\ conn = <<107, 101, 101, 112, 45, 97, 108, 105, 118, 101>>                        \* "keep-alive"
 
@@ -250,7 +252,9 @@ Micro(s, c, b, e) ==
       [] s.ph = "ccrlf" -> CrlfStep(s, c, b, e, "chunkterm", "csize")
       [] s.ph = "clast" -> CrlfStep(s, c, b, e, "lastterm", "end")
       [] s.ph = "untilclose" -> UntilCloseStep(s, c, b, e)
-      [] s.ph = "wait" -> IF e THEN Abort(s) ELSE Block(s)
+      [] s.ph = "wait" -> (* idle until the application answers.  The transport notices the peer's close while
+                             idle only if no unread bytes are buffered (otherwise when reading resumes) *)
+                          IF e /\ Len(b) = s.pos THEN Abort(s) ELSE Block(s)
       [] OTHER -> Block(s)
 
 (* run until nothing more can be done with the bytes that have arrived *)
@@ -291,12 +295,26 @@ InitWith(c, w) ==
     /\ r = R0
     /\ step = [act |-> "init", args |-> <<>>, exp |-> Proj(c, R0)]
 
+(* effects of the events, as functions of the reader state (shared by the actions below and by the
+   generation modules) *)
+BodyPhases == {"fixed", "csize", "cdata", "ccrlf", "clast"}
+AfterArrive(s, c, b) == Eager(s, c, b, FALSE)
+AfterEof(s, c, b) == Eager(s, c, b, TRUE)
+CanRespond(s) == s.ph = "wait" /\ ~s.closed
+AfterRespond(s, c, b, e) ==
+    LET s1 == [s EXCEPT !.out = Append(@, 200)]
+        s2 == IF s.persist THEN [s1 EXCEPT !.ph = "head"]
+              ELSE [s1 EXCEPT !.ph = "closed", !.closed = TRUE] IN
+    Eager(s2, c, b, e)
+CanTimeout(s, c) == c.btimeout /\ ~s.closed /\ s.ph \in BodyPhases
+CanShutdown(s, c) == c.mode = "server" /\ c.shut /\ ~s.closed
+
 (* n more bytes of the wire arrive *)
 Arrive(n) ==
     /\ ~eof /\ ~r.closed
     /\ n \in 1..(Len(wire) - Len(buf))
     /\ buf' = SubSeq(wire, 1, Len(buf) + n)
-    /\ r' = Eager(r, cfg, buf', FALSE)
+    /\ r' = AfterArrive(r, cfg, buf')
     /\ UNCHANGED <<cfg, wire, eof>>
     /\ step' = Obs("arrive", <<n>>)
 
@@ -304,31 +322,27 @@ Arrive(n) ==
 PeerClose ==
     /\ ~eof /\ ~r.closed
     /\ eof' = TRUE
-    /\ r' = Eager(r, cfg, buf, TRUE)
+    /\ r' = AfterEof(r, cfg, buf)
     /\ UNCHANGED <<cfg, wire, buf>>
     /\ step' = Obs("eof", <<>>)
 
 (* the application finishes its (asynchronous) response *)
 Respond ==
-    /\ r.ph = "wait" /\ ~r.closed
-    /\ LET s1 == [r EXCEPT !.out = Append(@, 200)]
-           s2 == IF r.persist THEN [s1 EXCEPT !.ph = "head"]
-                 ELSE [s1 EXCEPT !.ph = "closed", !.closed = TRUE] IN
-       r' = Eager(s2, cfg, buf, eof)
+    /\ CanRespond(r)
+    /\ r' = AfterRespond(r, cfg, buf, eof)
     /\ UNCHANGED <<cfg, wire, buf, eof>>
     /\ step' = Obs("respond", <<>>)
 
 (* the body timeout fires while a body is being read *)
 BodyTimeout ==
-    /\ cfg.btimeout /\ ~r.closed
-    /\ r.ph \in {"fixed", "csize", "cdata", "ccrlf", "clast"}
+    /\ CanTimeout(r, cfg)
     /\ r' = Abort(r)
     /\ UNCHANGED <<cfg, wire, buf, eof>>
     /\ step' = Obs("timeout", <<>>)
 
 (* the server shuts the connection down (close_all_connections) *)
 Shutdown ==
-    /\ cfg.mode = "server" /\ cfg.shut /\ ~r.closed
+    /\ CanShutdown(r, cfg)
     /\ r' = Abort(r)
     /\ UNCHANGED <<cfg, wire, buf, eof>>
     /\ step' = Obs("shutdown", <<>>)
